@@ -15,6 +15,8 @@ class State:
         self.graphs = list(graphs)
         self.nodes = list(nodes)
         self.values = list(values)
+        # a free value without a name (kept outside the selector pool so that the pool's modulo indexing is unchanged)
+        self.unnamed = ir.Value(const_value=_tensor("u"))
 
     def universe(self):
         """Every graph / node / value reachable from anything the harness ever held."""
@@ -51,7 +53,7 @@ class State:
                     add(u.node)
                 add(o.graph)
 
-        for o in self.graphs + self.nodes + self.values:
+        for o in self.graphs + self.nodes + self.values + [self.unnamed]:
             add(o)
         return graphs, nodes, values
 
@@ -160,7 +162,7 @@ def snapshot(st: State):
     """S(U): every public accessor of every object, objects replaced by stable ids."""
     graphs, nodes, values = st.universe()
     order = {}
-    for o in st.graphs + st.nodes + st.values + graphs + nodes + values:
+    for o in st.graphs + st.nodes + st.values + [st.unnamed] + graphs + nodes + values:
         order.setdefault(id(o), len(order))
 
     def oid(o):
@@ -327,7 +329,7 @@ OPS = [
     "out.append", "out.extend2", "out.insert", "out.pop", "out.remove", "out.clear", "out.setitem", "out.setslice", "out.delitem", "out.iadd",
     "init.setitem", "init.pop", "init.delitem", "init.clear", "init.register", "init.update", "init.setdefault", "init.popitem", "init.add", "init.ior",
     "v.rename", "Node()", "Node(outputs=)", "conv.replace_all_uses_with", "g.remove_safe_many", "conv.rename_values2", "conv.rename_values3",
-    "in.setslice2", "out.setslice2", "in.extend3", "out.extend3",
+    "in.setslice2", "out.setslice2", "in.extend3", "out.extend3", "init.update_keys",
 ]
 N_OPS = len(OPS)
 COLLECTION_OPS = [i for i, o in enumerate(OPS) if o.split(".")[0] in ("in", "out", "init")]
@@ -432,6 +434,11 @@ def apply(st: State, op: int, gi: int, a: int, b: int, c: int, d: int = 0):
                 inits.add(V(a))
             elif m == "ior":
                 inits |= {V(a).name: V(a), V(c).name: V(c)}
+            elif m == "update_keys":
+                # keys chosen independently of the values' names; either value may be the unnamed free value (also twice)
+                first = st.unnamed if a % 3 == 0 else V(a)
+                second = st.unnamed if c % 3 == 0 else V(c)
+                inits.update({key: first, (_pick(NAMES, d) or "k2"): second})
         elif name == "v.rename":
             V(a).name = _pick(NAMES, b)
         elif name == "conv.rename_values2":
